@@ -33,6 +33,14 @@ Definition expected_inline (s : site) : bool :=
             | Some RClass => match rlookup (st_root s) (st_callee s) with Some RStatic => true | _ => false end
             | _ => false
             end
+       | [m; c; f] =>
+         (* m.C.s(): the static method s of class C of the imported module m; m.obj.f() - a method on an attribute
+            of the module - is never inlined, whatever m defines under the name f *)
+         negb (mem m (st_params s))
+         && match rlookup (st_root s) m with
+            | Some RModuleImport => mem (st_callee s) (st_module_members s)
+            | _ => false
+            end
        | _ => false
        end.
 
